@@ -788,7 +788,10 @@ def resolver_entry_always_rewritten(ctx, P, pre):
     deadline) pair on every path — swapping only the listener keeps the deadline of the call it replaced"""
     f = resolver_registration_fn(P)
     ins = [b for b, t in f.calls() if "HashMap" in cname(t) and method(cname(t)) == "insert" and recv_mentions(P, f, b, t, "hostname_resolvers", "Zeroconf")]
-    ok = bool(ins) and not any(f.term(r)["k"] == "return" for r in f.reachable(0, removed_blocks=ins))
+    inplace = [b for b, t in f.calls() if "HashMap" in cname(t) and method(cname(t)) in ("get_mut",) and recv_mentions(P, f, b, t, "hostname_resolvers", "Zeroconf")]
+    # (the entry API and other whole-value writes are fine; what is looked for is an in-place edit of an existing entry on a
+    # path that never stores the new pair)
+    ok = not inplace or (bool(ins) and not any(f.term(r)["k"] == "return" for r in f.reachable(0, removed_blocks=ins)))
     ctx.ob(pre + ".resolver-entry-always-rewritten", f.name, ok, f.loc(ins[0]) if ins else f.loc(),
            "every path stores the new (listener, deadline) pair" if ok else
            "a path registers the new listener without storing its deadline (in-place update of an existing entry): the second resolve_hostname "
